@@ -1,0 +1,633 @@
+//! Verification hooks. Compiled only with the cargo feature `pearl_verif` (off by default).
+//!
+//! Nothing in this module changes the behaviour of the crate unless a test harness
+//! registers an I/O session or a failpoint for a work directory:
+//! * `BgCounters` / `BgState`: background-worker probe (messages sent / processed, tasks running);
+//! * `inflight_io`: number of submitted but unfinished blocking I/O closures;
+//! * `io`: ordered I/O event log per work directory and failpoints;
+//! * `IndexProbe`: thin public wrapper over the crate-private blob index.
+#![allow(missing_docs)]
+#![allow(missing_debug_implementations)]
+
+use std::collections::HashMap;
+use std::path::{Path, PathBuf};
+use std::sync::atomic::{AtomicBool, AtomicI64, AtomicU64, AtomicUsize, Ordering};
+use std::sync::{Arc, Mutex};
+
+// ------------------------------------------------------------------------------------------
+// H3: background worker probe
+// ------------------------------------------------------------------------------------------
+
+#[derive(Debug, Default)]
+pub struct BgCounters {
+    sent: AtomicU64,
+    received: AtomicU64,
+    processed: AtomicU64,
+    tasks_running: AtomicI64,
+    deferred_pending: AtomicBool,
+    worker_started: AtomicBool,
+    worker_exited: AtomicBool,
+    worker_panicked: AtomicBool,
+    in_send: AtomicI64,
+    waiting_write_lock: AtomicI64,
+}
+
+/// Snapshot of the background machinery of one `Storage`
+#[derive(Debug, Clone, Default, PartialEq, Eq)]
+pub struct BgState {
+    pub sent: u64,
+    pub received: u64,
+    pub processed: u64,
+    pub tasks_running: i64,
+    pub deferred_pending: bool,
+    pub worker_started: bool,
+    pub worker_exited: bool,
+    pub worker_panicked: bool,
+    pub in_send: i64,
+    pub waiting_write_lock: i64,
+}
+
+impl BgState {
+    /// No message is queued or being processed and no spawned maintenance task is running
+    pub fn quiet(&self) -> bool {
+        self.sent == self.processed && self.tasks_running == 0 && self.in_send == 0
+    }
+    /// `quiet` and no deferred index dump is pending
+    pub fn idle(&self) -> bool {
+        self.quiet() && !self.deferred_pending
+    }
+    pub fn worker_alive(&self) -> bool {
+        self.worker_started && !self.worker_exited
+    }
+}
+
+pub struct SendGuard {
+    c: Arc<BgCounters>,
+    enqueued: bool,
+}
+
+impl SendGuard {
+    pub fn enqueued(&mut self) {
+        self.enqueued = true;
+    }
+}
+
+impl Drop for SendGuard {
+    fn drop(&mut self) {
+        if !self.enqueued {
+            // the send future was dropped (or failed) before the message reached the queue
+            self.c.sent.fetch_sub(1, Ordering::SeqCst);
+        }
+        self.c.in_send.fetch_sub(1, Ordering::SeqCst);
+    }
+}
+
+pub struct TaskGuard(Arc<BgCounters>);
+impl Drop for TaskGuard {
+    fn drop(&mut self) {
+        self.0.tasks_running.fetch_sub(1, Ordering::SeqCst);
+    }
+}
+
+pub struct WorkerGuard(Arc<BgCounters>);
+impl Drop for WorkerGuard {
+    fn drop(&mut self) {
+        if std::thread::panicking() {
+            self.0.worker_panicked.store(true, Ordering::SeqCst);
+        }
+        self.0.worker_exited.store(true, Ordering::SeqCst);
+    }
+}
+
+pub struct WaitWriteGuard(Arc<BgCounters>);
+impl Drop for WaitWriteGuard {
+    fn drop(&mut self) {
+        self.0.waiting_write_lock.fetch_sub(1, Ordering::SeqCst);
+    }
+}
+
+impl BgCounters {
+    pub fn snapshot(&self) -> BgState {
+        // `processed` is read before `sent`: a message counted as processed was counted as sent
+        let processed = self.processed.load(Ordering::SeqCst);
+        let tasks_running = self.tasks_running.load(Ordering::SeqCst);
+        let deferred_pending = self.deferred_pending.load(Ordering::SeqCst);
+        BgState {
+            processed,
+            tasks_running,
+            deferred_pending,
+            received: self.received.load(Ordering::SeqCst),
+            sent: self.sent.load(Ordering::SeqCst),
+            worker_started: self.worker_started.load(Ordering::SeqCst),
+            worker_exited: self.worker_exited.load(Ordering::SeqCst),
+            worker_panicked: self.worker_panicked.load(Ordering::SeqCst),
+            in_send: self.in_send.load(Ordering::SeqCst),
+            waiting_write_lock: self.waiting_write_lock.load(Ordering::SeqCst),
+        }
+    }
+
+    pub fn send_guard(self: &Arc<Self>) -> SendGuard {
+        self.sent.fetch_add(1, Ordering::SeqCst);
+        self.in_send.fetch_add(1, Ordering::SeqCst);
+        SendGuard { c: self.clone(), enqueued: false }
+    }
+
+    pub fn task_guard(self: &Arc<Self>) -> TaskGuard {
+        self.tasks_running.fetch_add(1, Ordering::SeqCst);
+        TaskGuard(self.clone())
+    }
+
+    pub fn worker_guard(self: &Arc<Self>) -> WorkerGuard {
+        self.worker_started.store(true, Ordering::SeqCst);
+        WorkerGuard(self.clone())
+    }
+
+    pub fn wait_write_guard(self: &Arc<Self>) -> WaitWriteGuard {
+        self.waiting_write_lock.fetch_add(1, Ordering::SeqCst);
+        WaitWriteGuard(self.clone())
+    }
+
+    pub fn on_received(&self) {
+        self.received.fetch_add(1, Ordering::SeqCst);
+    }
+
+    /// Called by the worker after a message (or a deadline) has been handled completely
+    pub fn on_processed(&self, deferred_pending: bool, was_message: bool) {
+        self.deferred_pending.store(deferred_pending, Ordering::SeqCst);
+        if was_message {
+            self.processed.fetch_add(1, Ordering::SeqCst);
+        }
+    }
+}
+
+// ------------------------------------------------------------------------------------------
+// H4: in-flight blocking I/O closures
+// ------------------------------------------------------------------------------------------
+
+static INFLIGHT_IO: AtomicI64 = AtomicI64::new(0);
+
+/// Number of blocking I/O closures that were submitted and have not finished yet (process wide)
+pub fn inflight_io() -> i64 {
+    INFLIGHT_IO.load(Ordering::SeqCst)
+}
+
+struct InflightGuard;
+impl Drop for InflightGuard {
+    fn drop(&mut self) {
+        INFLIGHT_IO.fetch_sub(1, Ordering::SeqCst);
+    }
+}
+
+pub fn wrap_inflight<F, R>(f: F) -> impl FnOnce() -> R + Send + 'static
+where
+    F: FnOnce() -> R + Send + 'static,
+    R: Send + 'static,
+{
+    INFLIGHT_IO.fetch_add(1, Ordering::SeqCst);
+    let guard = InflightGuard;
+    move || {
+        let _guard = guard;
+        f()
+    }
+}
+
+// ------------------------------------------------------------------------------------------
+// H1 + H2: I/O tap and failpoints
+// ------------------------------------------------------------------------------------------
+
+pub mod io {
+    use super::*;
+    use std::io::{Error as IOError, Result as IOResult};
+    use std::os::unix::prelude::{AsRawFd, FileExt};
+
+    #[derive(Debug, Clone, Copy, PartialEq, Eq, Hash)]
+    pub enum Kind {
+        Create,
+        Open,
+        Write,
+        Sync,
+        Truncate,
+        Rename,
+        Remove,
+        Mkdir,
+    }
+
+    #[derive(Debug, Clone)]
+    pub struct Event {
+        pub seq: u64,
+        /// id shared by the begin and the end event of one operation
+        pub op: u64,
+        pub begin: bool,
+        pub kind: Kind,
+        pub path: PathBuf,
+        pub to: Option<PathBuf>,
+        pub offset: u64,
+        pub len: u64,
+        pub payload: Option<Vec<u8>>,
+        /// a failpoint made this operation fail (only on begin events)
+        pub injected: bool,
+    }
+
+    #[derive(Debug, Clone)]
+    pub struct Failpoint {
+        pub kind: Kind,
+        /// file extension the failpoint applies to ("blob", "index"), empty = any
+        pub ext: String,
+        /// fires on the n-th matching operation after arming (1-based)
+        pub nth: u64,
+        pub errno: i32,
+        /// for `Kind::Write`: write this many bytes of the buffer before failing
+        pub short: Option<u64>,
+        /// keep failing every matching operation from the n-th on
+        pub sticky: bool,
+        pub seen: u64,
+        pub fired: u64,
+    }
+
+    #[derive(Debug, Default)]
+    pub struct Session {
+        events: Mutex<Vec<Event>>,
+        seq: AtomicU64,
+        ops: AtomicU64,
+        record_payload: AtomicBool,
+        failpoints: Mutex<Vec<Failpoint>>,
+    }
+
+    impl Session {
+        pub fn set_record_payload(&self, v: bool) {
+            self.record_payload.store(v, Ordering::SeqCst);
+        }
+        pub fn events(&self) -> Vec<Event> {
+            self.events.lock().expect("verif events").clone()
+        }
+        pub fn events_len(&self) -> usize {
+            self.events.lock().expect("verif events").len()
+        }
+        pub fn events_from(&self, from: usize) -> Vec<Event> {
+            self.events.lock().expect("verif events")[from..].to_vec()
+        }
+        pub fn clear_events(&self) {
+            self.events.lock().expect("verif events").clear();
+        }
+        pub fn arm(&self, fp: Failpoint) {
+            self.failpoints.lock().expect("verif fps").push(fp);
+        }
+        pub fn disarm_all(&self) -> Vec<Failpoint> {
+            std::mem::take(&mut *self.failpoints.lock().expect("verif fps"))
+        }
+        pub fn failpoints(&self) -> Vec<Failpoint> {
+            self.failpoints.lock().expect("verif fps").clone()
+        }
+
+        fn log(&self, op: u64, begin: bool, kind: Kind, path: &Path, to: Option<&Path>, offset: u64, len: u64, payload: Option<Vec<u8>>, injected: bool) {
+            let mut events = self.events.lock().expect("verif events");
+            let seq = self.seq.fetch_add(1, Ordering::SeqCst);
+            events.push(Event {
+                seq,
+                op,
+                begin,
+                kind,
+                path: path.to_path_buf(),
+                to: to.map(|p| p.to_path_buf()),
+                offset,
+                len,
+                payload,
+                injected,
+            });
+        }
+
+        /// Returns the failpoint that fires for this operation, if any
+        fn check_fail(&self, kind: Kind, path: &Path) -> Option<Failpoint> {
+            let mut fps = self.failpoints.lock().expect("verif fps");
+            if fps.is_empty() {
+                return None;
+            }
+            let ext = path.extension().and_then(|e| e.to_str()).unwrap_or("");
+            let mut res = None;
+            for fp in fps.iter_mut() {
+                if fp.kind != kind || !(fp.ext.is_empty() || fp.ext == ext) {
+                    continue;
+                }
+                fp.seen += 1;
+                let fire = if fp.sticky { fp.seen >= fp.nth } else { fp.seen == fp.nth };
+                if fire && res.is_none() {
+                    fp.fired += 1;
+                    res = Some(fp.clone());
+                }
+            }
+            res
+        }
+    }
+
+    static SESSION_COUNT: AtomicUsize = AtomicUsize::new(0);
+    static SESSIONS: Mutex<Option<HashMap<PathBuf, Arc<Session>>>> = Mutex::new(None);
+    static FDS: Mutex<Option<HashMap<i32, (PathBuf, Arc<Session>)>>> = Mutex::new(None);
+
+    /// Start recording the file operations pearl performs below `dir`
+    pub fn start_session(dir: &Path) -> Arc<Session> {
+        let s = Arc::new(Session::default());
+        let mut g = SESSIONS.lock().expect("verif sessions");
+        let map = g.get_or_insert_with(HashMap::new);
+        if map.insert(dir.to_path_buf(), s.clone()).is_none() {
+            SESSION_COUNT.fetch_add(1, Ordering::SeqCst);
+        }
+        s
+    }
+
+    pub fn end_session(dir: &Path) {
+        let mut g = SESSIONS.lock().expect("verif sessions");
+        if let Some(map) = g.as_mut() {
+            if map.remove(dir).is_some() {
+                SESSION_COUNT.fetch_sub(1, Ordering::SeqCst);
+            }
+        }
+        let mut f = FDS.lock().expect("verif fds");
+        if let Some(map) = f.as_mut() {
+            map.retain(|_, (p, _)| !p.starts_with(dir));
+        }
+    }
+
+    fn session_for(path: &Path) -> Option<Arc<Session>> {
+        if SESSION_COUNT.load(Ordering::SeqCst) == 0 {
+            return None;
+        }
+        let g = SESSIONS.lock().expect("verif sessions");
+        let map = g.as_ref()?;
+        let mut cur = path.parent();
+        for _ in 0..3 {
+            let p = cur?;
+            if let Some(s) = map.get(p) {
+                return Some(s.clone());
+            }
+            cur = p.parent();
+        }
+        None
+    }
+
+    fn session_for_fd(fd: i32) -> Option<(PathBuf, Arc<Session>)> {
+        if SESSION_COUNT.load(Ordering::SeqCst) == 0 {
+            return None;
+        }
+        let g = FDS.lock().expect("verif fds");
+        g.as_ref()?.get(&fd).cloned()
+    }
+
+    /// Guard whose drop records the end event of an operation
+    pub struct OpGuard(Option<(Arc<Session>, u64, Kind, PathBuf, u64, u64)>);
+    impl OpGuard {
+        fn none() -> Self {
+            OpGuard(None)
+        }
+    }
+    impl Drop for OpGuard {
+        fn drop(&mut self) {
+            if let Some((s, op, kind, path, offset, len)) = self.0.take() {
+                s.log(op, false, kind, &path, None, offset, len, None, false);
+            }
+        }
+    }
+
+    fn begin(s: &Arc<Session>, kind: Kind, path: &Path, to: Option<&Path>, offset: u64, len: u64, payload: Option<Vec<u8>>) -> IOResult<OpGuard> {
+        let op = s.ops.fetch_add(1, Ordering::SeqCst);
+        let fp = s.check_fail(kind, path);
+        s.log(op, true, kind, path, to, offset, len, payload, fp.is_some());
+        if let Some(fp) = fp {
+            s.log(op, false, kind, path, None, offset, fp.short.unwrap_or(0).min(len), None, true);
+            return Err(IOError::from_raw_os_error(fp.errno));
+        }
+        Ok(OpGuard(Some((s.clone(), op, kind, path.to_path_buf(), offset, len))))
+    }
+
+    /// Called before a file is opened (`create == true` when it may be created)
+    pub fn on_open(path: &Path, create: bool) -> IOResult<()> {
+        if let Some(s) = session_for(path) {
+            let kind = if create { Kind::Create } else { Kind::Open };
+            let g = begin(&s, kind, path, None, 0, 0, None)?;
+            drop(g);
+        }
+        Ok(())
+    }
+
+    /// Called after a file was opened: remembers which path the descriptor belongs to
+    pub fn register_fd(fd: i32, path: &Path) {
+        let session = session_for(path);
+        let mut g = FDS.lock().expect("verif fds");
+        match session {
+            Some(s) => {
+                g.get_or_insert_with(HashMap::new).insert(fd, (path.to_path_buf(), s));
+            }
+            None => {
+                if let Some(map) = g.as_mut() {
+                    map.remove(&fd);
+                }
+            }
+        }
+    }
+
+    /// Called before a positional write. With an armed short-write failpoint the hook writes
+    /// the first bytes itself and reports the error.
+    pub fn on_write(file: &std::fs::File, offset: u64, buf: &[u8]) -> IOResult<OpGuard> {
+        if let Some((path, s)) = session_for_fd(file.as_raw_fd()) {
+            let op = s.ops.fetch_add(1, Ordering::SeqCst);
+            let payload = if s.record_payload.load(Ordering::SeqCst) { Some(buf.to_vec()) } else { None };
+            let fp = s.check_fail(Kind::Write, &path);
+            s.log(op, true, Kind::Write, &path, None, offset, buf.len() as u64, payload, fp.is_some());
+            if let Some(fp) = fp {
+                let n = fp.short.unwrap_or(0).min(buf.len() as u64) as usize;
+                if n > 0 {
+                    let _ = file.write_all_at(&buf[..n], offset);
+                }
+                s.log(op, false, Kind::Write, &path, None, offset, n as u64, None, true);
+                return Err(IOError::from_raw_os_error(fp.errno));
+            }
+            return Ok(OpGuard(Some((s, op, Kind::Write, path, offset, buf.len() as u64))));
+        }
+        Ok(OpGuard::none())
+    }
+
+    pub fn on_sync(file: &std::fs::File) -> IOResult<OpGuard> {
+        if let Some((path, s)) = session_for_fd(file.as_raw_fd()) {
+            return begin(&s, Kind::Sync, &path, None, 0, 0, None);
+        }
+        Ok(OpGuard::none())
+    }
+
+    pub fn on_truncate(path: &Path) -> IOResult<OpGuard> {
+        if let Some(s) = session_for(path) {
+            return begin(&s, Kind::Truncate, path, None, 0, 0, None);
+        }
+        Ok(OpGuard::none())
+    }
+
+    pub fn on_rename(from: &Path, to: &Path) -> IOResult<OpGuard> {
+        if let Some(s) = session_for(from) {
+            return begin(&s, Kind::Rename, from, Some(to), 0, 0, None);
+        }
+        Ok(OpGuard::none())
+    }
+
+    pub fn on_remove(path: &Path) -> IOResult<OpGuard> {
+        if let Some(s) = session_for(path) {
+            return begin(&s, Kind::Remove, path, None, 0, 0, None);
+        }
+        Ok(OpGuard::none())
+    }
+
+    pub fn on_mkdir(path: &Path) -> IOResult<OpGuard> {
+        if let Some(s) = session_for(path) {
+            return begin(&s, Kind::Mkdir, path, None, 0, 0, None);
+        }
+        Ok(OpGuard::none())
+    }
+}
+
+// ------------------------------------------------------------------------------------------
+// H5: index probe
+// ------------------------------------------------------------------------------------------
+
+pub mod index {
+    use crate::blob::index::{Index, IndexConfig, IndexTrait};
+    use crate::blob::FileName;
+    use crate::filter::Config as BloomConfig;
+    use crate::record::Header as RecordHeader;
+    use crate::storage::{Key, ReadResult};
+    use crate::IoDriver;
+    use anyhow::Result;
+    use serde_derive::Serialize;
+    use std::path::Path;
+
+    /// Plain view of a record header
+    #[derive(Debug, Clone, PartialEq, Eq)]
+    pub struct Hdr {
+        pub key: Vec<u8>,
+        pub timestamp: u64,
+        pub deleted: bool,
+        pub blob_offset: u64,
+        pub meta_size: u64,
+        pub data_size: u64,
+    }
+
+    /// Result of a latest-version lookup
+    #[derive(Debug, Clone, PartialEq, Eq)]
+    pub enum Latest {
+        Found(Hdr),
+        Deleted(u64),
+        NotFound,
+    }
+
+    // bincode mirror of `record::Header` (same field order and types)
+    #[derive(Serialize)]
+    struct RawHeader {
+        magic_byte: u64,
+        key: Vec<u8>,
+        meta_size: u64,
+        data_size: u64,
+        flags: u8,
+        blob_offset: u64,
+        timestamp: u64,
+        data_checksum: u32,
+        header_checksum: u32,
+    }
+
+    fn view(h: &RecordHeader) -> Hdr {
+        Hdr {
+            key: h.key().to_vec(),
+            timestamp: h.timestamp(),
+            deleted: h.is_deleted(),
+            blob_offset: h.blob_offset(),
+            meta_size: h.meta_size(),
+            data_size: h.data_size(),
+        }
+    }
+
+    pub struct IndexProbe<K>
+    where
+        for<'a> K: Key<'a>,
+    {
+        index: Index<K>,
+    }
+
+    impl<K> IndexProbe<K>
+    where
+        for<'a> K: Key<'a> + 'static,
+    {
+        fn config(bloom: Option<BloomConfig>) -> IndexConfig {
+            IndexConfig { bloom_config: bloom, recreate_index_file: true }
+        }
+
+        /// New empty in-memory index that will be dumped to `dir/<prefix>.<id>.index`
+        pub fn new(dir: &Path, prefix: &str, id: usize, bloom: Option<BloomConfig>) -> Self {
+            let name = FileName::new(prefix, id, "index", dir);
+            Self { index: Index::new(name, IoDriver::new_sync(), Self::config(bloom)) }
+        }
+
+        /// Opens an index file (validating it against `blob_size`)
+        pub async fn from_file(dir: &Path, prefix: &str, id: usize, bloom: Option<BloomConfig>, blob_size: u64) -> Result<Self> {
+            let name = FileName::new(prefix, id, "index", dir);
+            let index = Index::from_file(name, Self::config(bloom), IoDriver::new_sync(), blob_size).await?;
+            Ok(Self { index })
+        }
+
+        pub fn push(&self, h: &Hdr) -> Result<()> {
+            let raw = RawHeader {
+                magic_byte: crate::record::RECORD_MAGIC_BYTE,
+                key: h.key.clone(),
+                meta_size: h.meta_size,
+                data_size: h.data_size,
+                flags: if h.deleted { 1 } else { 0 },
+                blob_offset: h.blob_offset,
+                timestamp: h.timestamp,
+                data_checksum: 0,
+                header_checksum: 0,
+            };
+            let buf = bincode::serialize(&raw)?;
+            let header = RecordHeader::from_raw(&buf)?;
+            let key: K = h.key.clone().into();
+            self.index.push(&key, header)
+        }
+
+        pub async fn dump(&mut self, blob_size: u64) -> Result<usize> {
+            self.index.dump(blob_size).await
+        }
+
+        pub async fn load(&mut self, blob_size: u64) -> Result<()> {
+            self.index.load(blob_size).await
+        }
+
+        pub fn on_disk(&self) -> bool {
+            self.index.on_disk()
+        }
+
+        pub fn count(&self) -> usize {
+            self.index.count()
+        }
+
+        pub async fn get_latest(&self, key: &[u8]) -> Result<Latest> {
+            let key: K = key.to_vec().into();
+            Ok(match self.index.get_latest(&key).await? {
+                ReadResult::Found(h) => Latest::Found(view(&h)),
+                ReadResult::Deleted(ts) => Latest::Deleted(ts.into()),
+                ReadResult::NotFound => Latest::NotFound,
+            })
+        }
+
+        pub async fn get_all(&self, key: &[u8]) -> Result<Vec<Hdr>> {
+            let key: K = key.to_vec().into();
+            Ok(self.index.get_all(&key).await?.iter().map(view).collect())
+        }
+
+        pub async fn get_all_with_deletion_marker(&self, key: &[u8]) -> Result<Vec<Hdr>> {
+            let key: K = key.to_vec().into();
+            Ok(self.index.get_all_with_deletion_marker(&key).await?.iter().map(view).collect())
+        }
+
+        pub async fn contains_key(&self, key: &[u8]) -> Result<Option<(bool, u64)>> {
+            let key: K = key.to_vec().into();
+            Ok(match self.index.contains_key(&key).await? {
+                ReadResult::Found(ts) => Some((false, ts.into())),
+                ReadResult::Deleted(ts) => Some((true, ts.into())),
+                ReadResult::NotFound => None,
+            })
+        }
+    }
+}
